@@ -162,4 +162,61 @@ def Branch.unitSafe (b : Branch) : Bool :=
   (match b.copy with | some t => t.unitSafe | none => false)
   && (match b.inplace with | some t => t.unitSafe | none => false)
 
+/-! ### integer inputs: which calls of a chain see an integer array
+
+  NumPy result kinds along a chain when the caller's array has an integer dtype (`true` = integer):
+  `multiply`/`subtract`/`add` of two integer operands stay integer (exact), anything with a float
+  operand, `true_divide` and `sqrt` are float; `power`/`square` with a whole non-negative exponent
+  keep an integer integer (exact), with a fractional exponent give a float; a **negative whole
+  exponent on an integer operand** is either `np.reciprocal` (truncates: `1/3 → 0`) or `np.power`
+  (`ValueError`) — the one place where the integer run leaves the real-number formula.  Whole-valued
+  literals are taken as Python ints (the conservative reading); physical constants and keyword
+  parameters are floats.  An `out=x` write re-types the buffer (array.py `_float_out_view`). -/
+
+def constIsInt : Formula → Bool
+  | .lit q => q.den == 1
+  | _ => false
+
+structure KState where
+  buf : Bool
+  tmps : List (Bool × Bool)
+
+def kindArg (alias : Bool) (s : KState) : Arg → Option Bool
+  | .buf => some s.buf
+  | .tmp i =>
+    match s.tmps[i]? with
+    | some (k, al) => if alias && al then some s.buf else some k
+    | none => none
+  | .c f => some (constIsInt f)
+
+/-- (result is integer, the call is exact on its operands) -/
+def UFn.kind : UFn → List Bool → Option (Bool × Bool)
+  | .mul, [a, b] | .sub, [a, b] | .add, [a, b] => some (a && b, true)
+  | .div, [_, _] => some (false, true)
+  | .sqrt, [_] => some (false, true)
+  | .pow q, [a] =>
+    if !a then some (false, true)
+    else if q.den != 1 then some (false, true)
+    else if 0 ≤ q then some (true, true)
+    else some (true, false)
+  | _, _ => none
+
+def kindOps (alias : Bool) : KState → List Op → Bool
+  | _, [] => true
+  | s, op :: rest =>
+    match op.args.mapM (kindArg alias s) with
+    | none => false
+    | some ks =>
+      match op.fn.kind ks with
+      | none => false
+      | some (k, safe) =>
+        safe && kindOps alias { buf := if op.outBuf then k else s.buf, tmps := s.tmps ++ [(k, op.outBuf)] } rest
+
+/-- no call of the chain truncates (or refuses) when the caller's array is an integer array -/
+def Trace.intSafe (alias : Bool) (t : Trace) : Bool := kindOps alias ⟨true, []⟩ t.ops
+
+def Branch.intSafe (b : Branch) : Bool :=
+  (match b.copy with | some t => t.intSafe false | none => false)
+  && (match b.inplace with | some t => t.intSafe true && t.intSafe false | none => false)
+
 end Unyt.Equiv
